@@ -25,11 +25,11 @@ structure Url where
   rawQuery : Bytes := []
   fragment : Bytes := []
   rawFragment : Bytes := []
-deriving Repr, BEq, DecidableEq
+deriving Repr, DecidableEq
 
 inductive Err
   | ctl | missingScheme | colonInFirstSegment | badHost | badPort | badEscape
-deriving Repr, BEq, DecidableEq
+deriving Repr, DecidableEq
 
 /-- `getScheme`: `(scheme, rest)`. -/
 def getSchemeAux (raw : Bytes) : Nat → Bytes → Except Err (Bytes × Bytes)
@@ -217,7 +217,7 @@ def encodePair (k v : Bytes) : Bytes := queryEscape k ++ [61] ++ queryEscape v
 
 /-- `url.Values.Encode`: keys sorted bytewise, values in slice order. -/
 def encodeValues (m : QMap) : Bytes :=
-  let sorted := m.mergeSort fun a b => le a.1 b.1
+  let sorted := isortBy (fun a b => le a.1 b.1) m
   join [38] (sorted.flatMap fun kv => kv.2.map (encodePair kv.1))
 
 def mergeRawQuery (raw : Bytes) (cq rq : QMap) : Bytes :=
